@@ -80,7 +80,12 @@ def run_once(ct, ctx):
     except dsl.ConcContext.Vacuous:
         return 'vacuous', [], None
     except Exception as e:
-        return 'exception', [n for n, ok in ctx.results if not ok], '%s: %s' % (type(e).__name__, str(e)[:300])
+        import traceback as _tb
+        frames = _tb.extract_tb(e.__traceback__)
+        inner = frames[-1].filename if frames else ''
+        where = 'library' if ('svgpathtools' in inner or 'site-packages' in inner or '/lib/python' in inner) else 'contract'
+        return 'exception', [n for n, ok in ctx.results if not ok], '%s: %s [raised in %s code: %s:%s]' % (
+            type(e).__name__, str(e)[:300], where, inner.split('/')[-1], frames[-1].lineno if frames else 0)
     failed = [n for n, ok in ctx.results if not ok]
     return ('fail' if failed else 'pass'), failed, None
 
@@ -155,6 +160,7 @@ def bounded(prop, n, seed, all_failures=False):
     out = {'property': prop, 'n_per_contract': n, 'seed': seed, 'contracts': [], 'failures': [],
            'evaluations': 0, 'note': 'bounded stand-in: same contracts evaluated with float tolerance on random inputs '
                                      'against the real library; never counted as proved'}
+    per_key = {}
     for ct in cts:
         if ct.params.get('_no_bounded'):
             continue
@@ -168,7 +174,12 @@ def bounded(prop, n, seed, all_failures=False):
                 st['not_replayable'] = '%s: %s' % (type(e).__name__, str(e)[:120])
                 break
             st[status] += 1
-            if status in ('fail', 'exception') and (all_failures or len(out['failures']) < 40):
+            if status == 'exception' and exc and '[raised in contract code' in exc:
+                # a bug of the stand-in itself, not an observation of the library
+                st['harness_error'] = exc
+            key = (ct.ident(), (failed or ['no-unexpected-exception'])[0])
+            per_key[key] = per_key.get(key, 0) + (1 if status in ('fail', 'exception') else 0)
+            if status in ('fail', 'exception') and (all_failures or per_key[key] <= 3):
                 out['failures'].append({'contract': ct.ident(), 'clause': (failed or ['no-unexpected-exception'])[0],
                                         'failed': failed, 'exception': exc,
                                         'inputs': {k: v for k, v in ctx.inputs.items()}})
